@@ -396,6 +396,21 @@ def _blockify(check: Check):
   check.ob('R-MASK.blockify-ctor', fi, txt(ctor)[:90], ok_ctor,
            'the block carries the client ids / inputs of the padded client list and the masks and counts computed for it')
   _padding_templates(check, fi, ff)
+  # the block's first client is used as the longest one (num_batches[0]): the descending sort by batch count is unconditional
+  sorts = [(n, c) for n, c in ff.calls() if isinstance(c.func, ast.Attribute) and c.func.attr == 'sort'] + [
+      (n, c) for n, c in ff.calls() if ff.ext(c.func) == 'builtins.sorted']
+  uses_first = any(isinstance(x, ast.Subscript) and isinstance(x.value, ast.Name) and x.value.id == NB and txt(x.slice) == '0'
+                   for nd in ff.cfg.nodes if nd.ast is not None for x in nd.walk()) if NB else False
+  if uses_first:
+    ok_sort = False
+    for n, c in sorts:
+      desc = any(k.arg == 'reverse' and isinstance(k.value, ast.Constant) and k.value.value is True for k in c.keywords)
+      by_len = any(k.arg == 'key' and any(isinstance(y, ast.Call) and ff.ext(y.func) == 'builtins.len' for y in ast.walk(k.value)) for k in c.keywords)
+      uncond = not guards_of(ff, c, implied=False) and wmean._loop_of(ff, c) is None
+      ok_sort = ok_sort or (desc and by_len and uncond)
+    check.ob('R-MASK.blockify-max', fi, f'{NB}[0] is the maximum', ok_sort,
+             f'`{NB}[0]` is taken as the largest batch count of the block: that needs an unconditional descending sort of the clients by '
+             'batch count (a block whose first client is not the longest silently drops the extra batches of the others)')
   if not ok_ctor:
     return
 
@@ -645,6 +660,17 @@ def _scope(check: Check):
     why = f'yield in try={y_in_try}, old value saved before try={saved is not None}, finally restores it={restore_ok}, setter called inside try={set_in_try}'
   check.ob('R-SCOPE.restore', cm, 'old = ...; try: set(new); yield; finally: set(old)', ok,
            f'the previous backend must be restored on every exit, including an exception thrown into the generator: {why}')
+  # the setter selects (or raises) for every argument value: no normal path leaves without storing the choice - in particular
+  # set(None), which the context manager uses to restore "no selection", must reset
+  sff = FuncFlow.of(repo, setter)
+  check.analysed(setter)
+  store_nodes = {n.id for n in sff.cfg.nodes if n.ast is not None and any(
+      isinstance(x, ast.Attribute) and x.attr == 'backend' and isinstance(x.ctx, ast.Store) for x in n.walk())}
+  reach = sff.cfg.reachable_from([sff.cfg.entry], avoid=store_nodes, labels_excluded=('exc', 'raise', 'reraise'))
+  skipping = sff.cfg.exit.id in reach
+  check.ob('R-SCOPE.set', setter, 'every normal path stores _BACKEND_CHOICE.backend', bool(store_nodes) and not skipping,
+           'the setter either stores the requested backend or raises; a path that returns without storing (e.g. for None) leaves the '
+           'previous selection in place, so leaving a `with for_each_client_backend(...)` block would not restore the default')
   # thread local
   bc = repo.cls(MOD, 'BackendChoice')
   tl = any(r.kind == 'ext' and r.path == 'threading.local' for r in repo.class_bases(bc))
